@@ -113,6 +113,18 @@ func recordContexts(src string, m Mode, nestEvery int, coin *rand.Rand, drop boo
 		})
 	}
 	p = b.Build(src)
+	if len(src)%5 == 2 {
+		// the statement loop driven by hand through the public API (what a REPL or a tool that wants the statements one
+		// at a time does) instead of ParseProgram: the same parse steps, the same interceptor invocations
+		for p.CurrentToken.Type != token.EOF {
+			p.ParseStatement()
+			p.NextToken()
+		}
+		if errs := p.Errors(); len(errs) > 0 {
+			err = fmt.Errorf("%s", errs[0].Message)
+		}
+		return
+	}
 	_, err = p.ParseProgram()
 	return
 }
@@ -218,7 +230,13 @@ func checkContexts(t *fw.T, r *rand.Rand, prog *gen.Node, stratum string) {
 		}
 	}
 	t.Feature("nesting-depths", fmt.Sprint(maxDepth))
-	for _, m := range []Mode{{}, {Tolerant: true, Smart: false}} {
+	modes := []Mode{{}, {Tolerant: true, Smart: false}}
+	if !hasLineLeadingBracket(rd.Src) {
+		// no '(' / '[' first on a line: smart-semicolon mode reads the text like the default mode, and the context
+		// queries answer the same questions
+		modes = append(modes, Mode{Smart: true, Tolerant: r.IntN(2) == 0})
+	}
+	for _, m := range modes {
 		var obs []ctxObs
 		var p *parser.Parser
 		var err error
